@@ -75,9 +75,9 @@ def make_rows(r, n, idkind):
     return rows
 
 
-def build_grid(rows):
+def build_grid(rows, version='3.0'):
     import hszinc
-    g = hszinc.Grid(version='3.0', metadata={'gm': 'meta'}, columns=[(c, []) for c in ('id', 'a', 'b', 'c', 'r')])
+    g = hszinc.Grid(version=version, metadata={'gm': 'meta'}, columns=[(c, []) for c in ('id', 'a', 'b', 'c', 'r', 'zz')])
     hrows = []
     for row in rows:
         h = dict((k, hs.to_hs(v)) for k, v in row.items())
@@ -312,7 +312,11 @@ def run_shard(spec, ctx):
         grids = {}
         for variant in ('ref', 'str'):
             rows = make_rows(random.Random(11), 40, variant)
-            g, hrows = build_grid(rows)
+            if variant == 'str':
+                # an unversioned grid that became 3.0 because of one row (a list cell under a tag no filter mentions):
+                # results that leave that row out must still carry the source's version
+                rows.append({'zz': ('list', (NUM(1),))})
+            g, hrows = build_grid(rows, version='3.0' if variant == 'ref' else None)
             grids[variant] = (g, rows, hrows)
         R = F.Renderer(r)
         count = 0
@@ -342,7 +346,9 @@ def run_shard(spec, ctx):
         R = F.Renderer(r)
         for variant in ('ref', 'str'):
             rows = make_rows(random.Random(12), 60, variant)
-            g, hrows = build_grid(rows)
+            if variant == 'str':
+                rows.append({'zz': ('dict', (('k', NUM(1)),))})
+            g, hrows = build_grid(rows, version='3.0' if variant == 'ref' else None)
             for ast in atoms_all():
                 for lim in (0, 1, 3):
                     text = R.render(ast)
@@ -381,7 +387,10 @@ def run_shard(spec, ctx):
                         row[t] = row['a']
                 ast = ('and', [ast, r.choice([('has', [t]), ('not', [t]), ('cmp', '==', [t], LITS['num'])])]) if r.random() < 0.5 \
                     else r.choice([('has', [t]), ('not', [t]), ('cmp', '<', [t], LITS['num'])])
-            g, hrows = build_grid(rows)
+            uv = r.random() < 0.3
+            if uv:
+                rows.append({'zz': D.NA})
+            g, hrows = build_grid(rows, version=None if uv else r.choice(['3.0', '3.0', None]))
             text = R.render(ast)
             lim = r.choice([0, 0, 1, 2, 5])
             ctx.case(text, variant, lim, nontrivial=nontrivial(ast))
